@@ -161,6 +161,9 @@
 pub mod builder;
 pub mod scmp_handler;
 pub mod socket;
+/// Verification hooks for the SCMP handling of sockets (cargo feature `verif-hooks`).
+#[cfg(feature = "verif-hooks")]
+pub mod verif_scmp;
 
 use std::{borrow::Cow, fmt, net, sync::Arc, time::Duration};
 
